@@ -45,7 +45,7 @@ def extra(ctx):
 def run(ctx):
     q = ctx.quick()
     C = mx.cfg
-    r = lib.require_ok(lib.run_tlc(ctx, "Mux", "Mux_seq.cfg", {"NC": 2, "NS": 2 if not q else 1, "UNITS": 2, "MAXWRITE": 2,
+    r = lib.require_ok(lib.run_tlc(ctx, "Mux", "Mux_seq.cfg", {"NC": 2, "NS": 1, "UNITS": 2 if q else 3, "MAXWRITE": 2 if q else 3,
                                                                 "FEAT": '"swrite","close"'}, tag="mc_seq", timeout=1800), "Mux SeqStep")
     ctx.log("mc SeqStep/NonceInv: %d distinct" % r.distinct)
     gens = [("seq_bfs", C(nc=2, ns=1, units=2, maxwrite=2, feat='"close"'), 30, 0, None, 2, {"allconc": not q}),
